@@ -2,7 +2,7 @@
    each followed by Print Assumptions; Examples show that hypotheses are satisfiable. *)
 From Coq Require Import ZArith List Bool PArith String.
 From Coq Require Import Sorting.Permutation.
-From C08 Require Import Model Proofs ProofsKind ProofsTrans ProofsTrans2 ProofsUnion ProofsMeet ProofsMeetComm ProofsJoin ProofsFuel ProofsKey ProofsF2 ProofsF2Sound ProofsF2Comp ProofsF2Eq ProofsF2Trans ProofsF2Union ProofsF2Meet Statement.
+From C08 Require Import Model Proofs ProofsKind ProofsTrans ProofsTrans2 ProofsUnion ProofsMeet ProofsMeetComm ProofsJoin ProofsFuel ProofsKey ProofsF2 ProofsF2Sound ProofsF2Comp ProofsF2Eq ProofsF2Trans ProofsF2Union ProofsF2Meet ProofsF2MeetComm Statement.
 From Gen Require Import SubtypeKind.
 Import ListNotations.
 
@@ -270,6 +270,22 @@ Proof.
   - exact (sub_complete2 ct Hwf no_cache (Hlk0 ct) false x t L2 Fx Ft K_sub eq_refl eq_refl eq_refl m y).
 Qed.
 Print Assumptions meet_lower_F2.
+
+(* meet_comm_equiv on F2 outside families X2 and X3: the two argument orders give equivalent types *)
+Theorem meet_comm_equiv_F2 : forall ct, wf_ct ct = true -> wf_gen ct = true -> wf_contr ct = true ->
+  forall n s t x y, goodm ct s = true -> goodm ct t = true ->
+  meet_types ct n s t = Some x -> meet_types ct n t s = Some y ->
+  goodm ct x = true /\ goodm ct y = true /\
+  forall m b, (is_subtype ct m x y = Some b -> b = true) /\ (is_subtype ct m y x = Some b -> b = true).
+Proof.
+  intros ct Hwf Hgen Hc n s t x y Gs Gt H1 H2.
+  destruct (meet_comm_F2 ct Hwf Hgen Hc n n s t x y Gs Gt H1 H2) as [Gx [Gy [L1 L2]]].
+  destruct (goodm_parts ct _ Gx) as [Fx _]. destruct (goodm_parts ct _ Gy) as [Fy _].
+  split; auto. split; auto. intros m b. split.
+  - exact (sub_complete2 ct Hwf no_cache (Hlk0 ct) false x y L1 Fx Fy K_sub eq_refl eq_refl eq_refl m b).
+  - exact (sub_complete2 ct Hwf no_cache (Hlk0 ct) false y x L2 Fy Fx K_sub eq_refl eq_refl eq_refl m b).
+Qed.
+Print Assumptions meet_comm_equiv_F2.
 
 (* answers on F2 only depend on the Type.__eq__ classes of the two types (UnionType.__eq__ = set equality of items) *)
 Theorem eq_invariant_F2 : forall ct, wf_ct ct = true ->
